@@ -291,6 +291,9 @@ func H03c_Burst() {
 	if which >= 2 {
 		width = 4
 	}
+	if mw := verif.Param("maxwidth", 0); mw > 0 && width > mw {
+		width = mw // bursts shorter than the CRC width (the solver cost of 32-bit bursts is minutes per position)
+	}
 	pos := verif.Size("pos", 1, len(enc)-1-width)
 	if shards := verif.Param("shards", 1); shards > 1 {
 		verif.Assume(pos%shards == verif.Param("shard", 0))
